@@ -3,7 +3,7 @@
 From Coq Require Import List Arith Lia Ring ZArith QArith Qcanon.
 From PyOMA.Base Require Import Carrier FMat.
 From PyOMA.Model Require Import M_hankel.
-From PyOMA.Proofs Require Import P_hankel.
+From PyOMA.Proofs Require Import P_hankel P_hankel_basis.
 Import ListNotations.
 
 Section S.
@@ -71,6 +71,54 @@ Theorem C12_dat_gram : forall (a b T : nat) (Yp Yf L11 L11i L21 L22 Q1 Q2 W : fm
   feq b b (fmul K a L21 (ftr L21))
           (fmul K a (fmul K a (fmul K T Yf (ftr Yp)) W) (ftr (fmul K T Yf (ftr Yp)))).
 Proof. exact (hank_dat_gram R K Rth). Qed.
+(* "the bilinear map is determined completely by evaluating it on all pairs of unit impulses": for a fixed shape (l channels,
+   r references, N samples), ANY map of (data, reference data) that is additive and homogeneous in each argument and reads its
+   arguments only inside the shape is the double sum of its impulse-pair values weighted by the samples ... *)
+Theorem C12_bilinear_expansion : forall l r N (F:sig R -> sig R -> R), bilinear_on R K l r N F -> forall Y Z,
+  F Y Z = sumn K l (fun a => sumn K N (fun s => sumn K r (fun b => sumn K N (fun t =>
+            Y a s * Z b t * F (imp R K a s) (imp R K b t))))).
+Proof. exact (bilinear_expansion R K Rth). Qed.
+(* ... hence two such maps that agree on every impulse pair agree on all data *)
+Theorem C12_determined_by_impulses : forall l r N F G,
+  bilinear_on R K l r N F -> bilinear_on R K l r N G ->
+  (forall a s b t, (a < l)%nat -> (s < N)%nat -> (b < r)%nat -> (t < N)%nat ->
+     F (imp R K a s) (imp R K b t) = G (imp R K a s) (imp R K b t)) ->
+  forall Y Z, F Y Z = G Y Z.
+Proof. exact (determined_by_impulses R K Rth). Qed.
+(* every entry of the model's two covariance matrices is such a map on records of Ndat samples (it reads no sample at or
+   beyond Ndat: a window running off the record would break the first clause) *)
+Theorem C12_mm_bilinear : forall invN l r br Ndat I J,
+  (0 < l)%nat -> (0 < r)%nat -> (I < hank_rows l br)%nat -> (J < hank_cols r br)%nat ->
+  bilinear_on R K l r Ndat (fun Y Z => hank_mm K invN l r br Ndat Y Z I J).
+Proof. exact (hank_mm_bilinear R K Rth). Qed.
+Theorem C12_R_bilinear : forall invn l r br Ndat I J,
+  (0 < l)%nat -> (0 < r)%nat -> (I < hank_rows l br)%nat -> (J < hank_cols r br)%nat ->
+  bilinear_on R K l r Ndat (fun Y Z => hank_R K invn l r br Ndat Y Z I J).
+Proof. exact (hank_R_bilinear R K Rth). Qed.
+(* what the check's exhaustive basis evaluation establishes: an implementation entry that is bilinear on the shape and agrees
+   with the model on all impulse pairs IS the model's entry on ALL data of that shape *)
+Theorem C12_impl_equals_mm : forall invN l r br Ndat I J (F:sig R -> sig R -> R),
+  (0 < l)%nat -> (0 < r)%nat -> (I < hank_rows l br)%nat -> (J < hank_cols r br)%nat ->
+  bilinear_on R K l r Ndat F ->
+  (forall a s b t, (a < l)%nat -> (s < Ndat)%nat -> (b < r)%nat -> (t < Ndat)%nat ->
+     F (imp R K a s) (imp R K b t) = hank_mm K invN l r br Ndat (imp R K a s) (imp R K b t) I J) ->
+  forall Y Z, F Y Z = hank_mm K invN l r br Ndat Y Z I J.
+Proof. exact (impl_equals_mm R K Rth). Qed.
+Theorem C12_impl_equals_R : forall invn l r br Ndat I J (F:sig R -> sig R -> R),
+  (0 < l)%nat -> (0 < r)%nat -> (I < hank_rows l br)%nat -> (J < hank_cols r br)%nat ->
+  bilinear_on R K l r Ndat F ->
+  (forall a s b t, (a < l)%nat -> (s < Ndat)%nat -> (b < r)%nat -> (t < Ndat)%nat ->
+     F (imp R K a s) (imp R K b t) = hank_R K invn l r br Ndat (imp R K a s) (imp R K b t) I J) ->
+  forall Y Z, F Y Z = hank_R K invn l r br Ndat Y Z I J.
+Proof. exact (impl_equals_R R K Rth). Qed.
+(* "the sign convention being the same in every block": the correlation matrix is block-Toeplitz for every size - blocks with
+   the same br+i-j are equal entry by entry (the moment matrix shares only the lag i+j+1 between such blocks, its averaging
+   window starts at br+1-j: C12_mm_entry) *)
+Theorem C12_R_block_toeplitz : forall invn l r br Ndat (Y Yref:sig R) i j i' j' a b,
+  (i <= br)%nat -> (j <= br)%nat -> (i' <= br)%nat -> (j' <= br)%nat -> (a < l)%nat -> (b < r)%nat ->
+  (br + i - j = br + i' - j')%nat ->
+  hank_R K invn l r br Ndat Y Yref (i*l+a)%nat (j*r+b)%nat = hank_R K invn l r br Ndat Y Yref (i'*l+a)%nat (j'*r+b)%nat.
+Proof. exact (hank_R_block_toeplitz R K). Qed.
 End S.
 
 Print Assumptions C12_mm_entry.
@@ -82,6 +130,13 @@ Print Assumptions C12_gen_add_ref.
 Print Assumptions C12_gen_scal.
 Print Assumptions C12_dims.
 Print Assumptions C12_dat_gram.
+Print Assumptions C12_bilinear_expansion.
+Print Assumptions C12_determined_by_impulses.
+Print Assumptions C12_mm_bilinear.
+Print Assumptions C12_R_bilinear.
+Print Assumptions C12_impl_equals_mm.
+Print Assumptions C12_impl_equals_R.
+Print Assumptions C12_R_block_toeplitz.
 
 (* non-vacuity: l=2, r=1, br=1, Ndat=8, integer data; block (1,1), channel 1, reference 0 *)
 Example C12_example :
@@ -89,3 +144,14 @@ Example C12_example :
   ent ZOps (hank_mm_l ZOps 1%Z 2 1 1 8 Y Yr) 3 1 = (1*0 + 0*1 + 2*3 + 5*1)%Z /\
   ent ZOps (hank_R_l ZOps (fun _ => 1%Z) 2 1 1 8 Y Yr) 3 1 = (2*0+0*1+1*3+3*1+1*0+0*2+2*5)%Z.
 Proof. vm_compute. split; reflexivity. Qed.
+
+(* non-vacuity of the basis theorems: the (block 1, channel 1; block 1, reference 0) entry of the l=2, r=1, br=1, Ndat=8
+   moment matrix over Z is a bilinear map on that shape, and its impulse expansion evaluated on the example data gives the
+   entry itself *)
+Example C12_example_basis :
+  bilinear_on Z ZOps 2 1 8 (fun Y Yr => hank_mm ZOps 1%Z 2 1 1 8 Y Yr 3%nat 1%nat) /\
+  let Y := sig_of ZOps [[1;2;3;4;5;6;7;8];[2;0;1;3;1;0;2;5]]%Z in let Yr := sig_of ZOps [[2;0;1;3;1;0;2;5]]%Z in
+  sumn ZOps 2 (fun a => sumn ZOps 8 (fun s => sumn ZOps 1 (fun b => sumn ZOps 8 (fun t =>
+     (Y a s * Yr b t * hank_mm ZOps 1%Z 2 1 1 8 (imp Z ZOps a s) (imp Z ZOps b t) 3%nat 1%nat)%Z))))
+  = hank_mm ZOps 1%Z 2 1 1 8 Y Yr 3%nat 1%nat.
+Proof. split; [apply (C12_mm_bilinear Z ZOps ZRth); unfold hank_rows, hank_cols; lia | vm_compute; reflexivity]. Qed.
